@@ -3,6 +3,7 @@
  *   usage: tsan_thread <seed> <max live children> <ms> [flags]
  *   flags bit 0: the parent also calls iv_thread_list_children() (undocumented debug helper of iv_thread.h)
  *                right after creating a child
+ *   flags bit 1: a child that has created a grandchild calls iv_quit() at once and tears its loop down without waiting for it
  *
  * The main loop creates children from a timer; a child initialises its own loop, runs a timer and a
  * self-posted event, sometimes creates a grandchild (and then keeps running until the grandchild has been
@@ -25,6 +26,7 @@ struct child {
 	struct iv_timer t;
 	struct iv_event ev;
 	int ev_count;
+	int abandon;
 };
 
 static void child_main(void *arg);
@@ -62,8 +64,18 @@ static void child_timer(void *_c)
 	struct child *c = _c;
 
 	if (c->depth < 2 && !atomic_load(&stop_all) && tsu_rand(&c->rng) % 3 == 0 &&
-	    atomic_load(&live) < g_nthr)
+	    atomic_load(&live) < g_nthr) {
 		spawn(&c->rng, c->depth + 1);
+		if (g_flags & 2) {
+			/* flags bit 1: the creator does not wait for the thread it created: it leaves its loop at once (iv_quit) and tears it
+			 * down while the new thread is starting, running or exiting */
+			c->abandon = 1;
+			/* stay busy for a while first (0-4 ms): the new thread may well have exited before this loop is torn down, with its
+			 * `dead` event still undelivered */
+			tsu_sleep_us((int)(tsu_rand(&c->rng) % 4000));
+			iv_quit();
+		}
+	}
 }
 
 static void child_main(void *arg)
@@ -93,6 +105,8 @@ static void child_main(void *arg)
 
 	iv_main();
 
+	if (c->abandon && c->ev_count < 3)
+		iv_event_unregister(&c->ev);
 	leave_by_return = tsu_rand(&c->rng) & 1;
 	free(c);
 	atomic_fetch_add(&finished, 1);
